@@ -193,6 +193,9 @@ CFG = {
             "object stream CONTAINER (family 1: three) and an ordinary stream whose /Length holders are written by an OLDER revision (later in cross-reference order: second pass across revisions), the SAME revision (number order x file order) or a NEWER one, optionally "
             "written again by the newest revision with the same integers; 288 combinations = relation x number order x family (as C03 `lenc`, incl. holders that are members of another object stream: known class length-holder-in-objstm for ordinary streams, refused-or-exact for containers) "
             "x 2-4 revisions x file order x rewrite; every member must be defined with its value. "
+            "SIZE SWEEP of the bytes AROUND a history (`garh`, added after the missed seed C03_7; sibling of the trailing-side seed C04_5): for every seed, independent of n, every length of C03's sweep (0..40, 63-65, 127, 128, 255, 256, 511, 512, 1000, 1019-1021, 1023-1025, 2047, 2048, 4095-4097, 8192, 65535, 65536, 70000; thorough + 1000000, three rounds) "
+            "of filler (kinds as in C03 `garb`) before the header, in the gap before the LAST startxref, after the LAST %%EOF - one place at a time and all three at once - around a well-chained history of 2-4 revisions (families 0-3 and 7 = a /Prev skipping revisions, rotating with the size); every /Prev and offset is relative "
+            "to the header, so the oracle is DocSpec.resolve of the chain + the reported header offset = length of the leading filler; 261 cases per seed; corpus/C04/garbage_size_sweep.case (hand-built two-revision histories behind 1019 / 1020 / 1024 / 1025 bytes, with 1020 / 1025 trailing and 1024 gap bytes). "
             "Every 3rd history also with one "
             "corruption (correspondence and no panic). Oracle = DocSpec.resolve over the revisions on the chain. Classifiers decided on the case: "
             "'generation-changed' = some number is mentioned with two generations; 'objstm-member-touched-later' = a member number is mentioned by a later "
